@@ -111,6 +111,7 @@ func elemLists() [][]Elem {
 		rich(kRelation, 1, 0), rich(kNode, 2, 1), rich(kWay, 3, 2), {Kind: kNode, ID: 4, Order: 1},
 		rich(kUser, 5, 3), rich(kChangeset, 6, 4), rich(kNote, 7, 5), {Kind: kWay, ID: 8, Sub: 2, Order: 2, Unk: 1},
 		{Kind: kRelation, ID: 9}, // a relation without members
+		{Kind: kNote, ID: 10}, {Kind: kUser, ID: 11, Mask: 1}, {Kind: kChangeset, ID: 12, Tags: 1},
 	})
 	lists = append(lists, []Elem{{Kind: kNode, ID: 1}, {Kind: kNode, ID: 9007199254740993}, {Kind: kNode, ID: -3}})
 	return lists
